@@ -30,7 +30,7 @@ func runC19(t *kernel.Tape, opt core.Opts) *core.Outcome {
 	}
 	call := &Call{Tag: "r0", Paradigm: par, In: in, InCut: t.Plan(4), InPipe: t.PlanBool(60), StopAfter: stop}
 	nHandlers := t.Plan(3)
-	modes := []int{t.Plan(3), t.Plan(3)}
+	modes := []int{t.Plan(4), t.Plan(4)} // 3: a handler that declines the stream timings
 	o.Sample = p.Render() + fmt.Sprintf(" call=%s stopAfter=%d handlers=%d%v", paradigmNames[par], stop, nHandlers, modes[:nHandlers])
 	o.PlanHash = planHash(o.Sample)
 	mr := RunModel(p, in)
@@ -175,7 +175,7 @@ var _ = callbacks.InitCallbackHandlers
 func init() {
 	core.Register(&core.Profile{
 		RaceQuick: 200, RaceThorough: 3000, ID: "C19", Engine: "graphsim", Quick: 2500, Thorough: 60000, ThoroughSeeds: 3, Run: runC19,
-		Rule: "each run draws a plan (all-predecessor graph, workflow or Pregel; stream producers as pipe tasks or arrays, lazily reading transforms, stream branches reading a prefix, stream state handlers, mappings), a Stream or Transform call whose caller reads to the end or closes after 0-3 chunks, 0-2 callback handlers that read all / one chunk / nothing of their copies, and one schedule; after the call the kernel keeps scheduling until nothing can run; oracle (only for runs the reference model puts inside the quantifier: result, every value has a consumer): no goroutine created by the run is still alive, no producer task is still blocked in Send",
+		Rule: "each run draws a plan (all-predecessor graph, workflow or Pregel; stream producers as pipe tasks or arrays, lazily reading transforms, stream branches reading a prefix, stream state handlers, mappings), a Stream or Transform call whose caller reads to the end or closes after 0-3 chunks, 0-2 callback handlers that read all / one chunk / nothing of their copies, and one schedule; after the call the kernel keeps scheduling until nothing can run; oracle (only for runs the reference model puts inside the quantifier: result, every value has a consumer): no goroutine created by the run is still alive, no producer task is still blocked in Send; some handlers decline the stream timings (callbacks.TimingChecker)",
 		Real: graphReal, Stub: graphStub,
 		Faults: []string{"caller stops reading at a drawn chunk", "handlers closing their copies", "branch reads a prefix", "schedule perturbation"},
 	})
